@@ -348,7 +348,7 @@ pub fn run_k(toks: &[&str]) -> String {
             }
         }
         "autotraits" => text(&crate::traits::autotraits()),
-        "scalar_forms" => text(&crate::scalar::scalar_forms(a[0], a[1])),
+        "scalar_forms" => text(&crate::scalar::scalar_forms(a[0], a[1], a.get(2).copied().unwrap_or(0))),
         "scalar_neg" => text(&crate::scalar::scalar_neg(a[0])),
         "itermut_zst" => itermut_zst(a[0], u(1), u(2), a[3], a[4], &a[5..]),
         "from_wrapping" => {
